@@ -7,8 +7,16 @@ keys (`serde_json::Map` = `BTreeMap` in this build: no `preserve_order`).
 -/
 namespace Avro
 
-/-- a string literal as UTF-8 bytes -/
+/-- a string as UTF-8 bytes (run time only: does not reduce in the kernel) -/
 def bs (s : String) : Bytes := s.toUTF8.toList
+
+open Lean in
+/-- `b!"text"`: the UTF-8 bytes of a string literal, written out as a list literal at elaboration
+time (so that the kernel can compute with it) -/
+macro:max "b!" s:str : term => do
+  let bytes := s.getString.toUTF8.toList
+  let elems ← bytes.toArray.mapM (fun b => `(($(quote b.toNat) : UInt8)))
+  `(([$elems,*] : List UInt8))
 
 /-! ### JSON helpers -/
 
@@ -87,7 +95,7 @@ def schemaNameIndex (s : Bytes) : Option Nat :=
 structure PName where
   ns : Option Bytes
   name : Bytes
-  deriving Repr, BEq, DecidableEq, Inhabited
+  deriving Repr, DecidableEq, Inhabited
 
 /-- `Name::fullname(None)` / `Display` -/
 def PName.full (n : PName) : Bytes :=
@@ -96,7 +104,11 @@ def PName.full (n : PName) : Bytes :=
   | none => n.name
 
 /-- `Name::new_with_enclosing_namespace`; `none` = `InvalidSchemaName` / `InvalidNamespace` -/
-def PName.make (s : Bytes) (enclosing : Option Bytes) : Option PName :=
+def PName.ok (n : PName) : Bool :=
+  isIdent n.name && (match n.ns with | none => true | some ns => !ns.isEmpty && isNamespace ns)
+
+/-- `Name::new_with_enclosing_namespace`; `none` = `InvalidSchemaName` / `InvalidNamespace` -/
+def PName.raw (s : Bytes) (enclosing : Option Bytes) : Option PName :=
   match schemaNameIndex s with
   | none => none
   | some idx =>
@@ -107,6 +119,13 @@ def PName.make (s : Bytes) (enclosing : Option Bytes) : Option PName :=
       | none => some { ns := none, name := s }
     else if idx == 1 then some { ns := none, name := s.drop 1 }      -- leading dot
     else some { ns := some (s.take (idx - 1)), name := s.drop idx }
+
+/-- (the `if n.ok` re-checks what the regex match already guarantees - it never fails, and is there
+so that "every name the parser builds is well formed" holds by construction) -/
+def PName.make (s : Bytes) (enclosing : Option Bytes) : Option PName :=
+  match PName.raw s enclosing with
+  | some n => if n.ok then some n else none
+  | none => none
 
 /-- `Name::fully_qualified_name` -/
 def PName.qualify (n : PName) (enclosing : Option Bytes) : PName :=
@@ -163,7 +182,7 @@ def PSchema.pname? : PSchema → Option PName
 inductive BaseKind
   | null | boolean | int | long | float | double | bytes | string | array | map | union | record | enum
   | fixed | ref | bigDecimal
-  deriving Repr, BEq, DecidableEq
+  deriving Repr, DecidableEq
 
 def PSchema.baseKind : PSchema → BaseKind
   | .null => .null | .boolean => .boolean | .int | .date | .timeMillis => .int
